@@ -1535,6 +1535,9 @@ class ContactHandler(Messenger, dbus.service.Object):
         :rtype: bool
         '''
         self._process_queue_pend = None
+        if self.get_app_socket() is None:
+            # connection is closed, nothing more can be sent
+            return False
         self._logger.debug('Processing queue of %d items',
                            len(self._tx_pend_start))
 
